@@ -4,6 +4,7 @@ from collections import Counter
 from vlib import util, ref, gen
 
 PROPERTY = "C13"
+COND_W = 16 * 2.220446049250313e-16 / 1e-10       # 16 eps of input sensitivity, expressed in units of the 1e-10 relative band
 RULE = ("SBML L3v2 documents built directly with libsbml (never bioscrape's writer): one compartment of size 1, species with initial amount "
         "or initial concentration, global parameters, reactions with integer stoichiometries 1-3 and modifier species, kinetic laws over "
         "+ - * / ^ exp ln abs and numbers, local parameters colliding with a global / another reaction's local / nothing, 0-3 assignment rules "
@@ -373,9 +374,10 @@ def run_case(doc):
                     loc = {kl.getLocalParameter(i).getId(): kl.getLocalParameter(i).getValue() for i in range(kl.getNumLocalParameters())}
                     env = lambda nm: loc[nm] if nm in loc else (x[nm] if nm in x else p[nm])
                     rate = sbmlref.ast_eval(kl.getMath(), env)
-                    # the scale of a term is its magnitude without cancellation: the importer may re-arrange a law algebraically
-                    # (expand a product of a difference), which changes the rounding by eps times that magnitude
-                    rmag = max(abs(rate), sbmlref.ast_mag(kl.getMath(), env))
+                    # the band of a term: 1e-10 of its value plus 16 eps times its sensitivity to its inputs as the law is written
+                    # (inputs computed by rules differ in the last bits between two correct evaluations); a re-arrangement of
+                    # the law that is numerically worse than that (an expanded power of a difference) is outside the band
+                    rmag = abs(rate) + COND_W * sbmlref.ast_cond(kl.getMath(), env)
                     for sr in rx.getListOfProducts():
                         dx[sr.getSpecies()] += sr.getStoichiometry() * rate
                         scale[sr.getSpecies()] += abs(sr.getStoichiometry() * rmag)
@@ -388,10 +390,10 @@ def run_case(doc):
                         v = sbmlref.ast_eval(r.getMath(), env)
                         if r.getVariable() in dx:
                             dx[r.getVariable()] += v
-                            scale[r.getVariable()] += max(abs(v), sbmlref.ast_mag(r.getMath(), env))
+                            scale[r.getVariable()] += abs(v) + COND_W * sbmlref.ast_cond(r.getMath(), env)
                         else:
                             dp[r.getVariable()] = v
-                            dpmag[r.getVariable()] = max(abs(v), sbmlref.ast_mag(r.getMath(), env))
+                            dpmag[r.getVariable()] = abs(v) + COND_W * sbmlref.ast_cond(r.getMath(), env)
             except ref.Undefined:
                 C["skipped_undefined"] += 1
                 continue
